@@ -5,7 +5,7 @@ from spec import c03 as S
 from checks.nskel import SKELETONS, LONG
 
 BOUNDS = {
-    "quick": "23 URL skeletons x every hole string of length 0..1 (0..2 for the query-escape, redirect and the two path holes after a '%') over all code points (hex digits only for the two holes that follow a '%' in the path) x quoted / strip_suffix in {F,T}; platform_aware=False",
+    "quick": "24 URL skeletons x every hole string of length 0..1 (0..2 for the query-escape, redirect and the two path holes after a '%') over all code points (hex digits only for the two holes that follow a '%' in the path) x quoted / strip_suffix in {F,T}; platform_aware=False",
     "thorough": "holes of length 0..2 (3 for path / query / fragment / redirect holes)",
 }
 STUBS = ["see C01 (urlsplit etc. interpreted; UTF-8 / quote / table models; exact model of urlsplit's NFKC check; idna cut)"]
@@ -15,7 +15,8 @@ ASSUMPTIONS = ["inputs on which a function raises are skipped here (never-raises
 
 
 # skeletons of this check only: an escape that is a whole path segment (an escaped dot segment)
-SKELS = list(SKELETONS) + [("path-escape-seg", "http://x.fr/a/%", "/b"), ("query-escape-redirect-key", "http://a.fr/?%", "rl=http://b.fr/x")]
+SKELS = list(SKELETONS) + [("path-escape-seg", "http://x.fr/a/%", "/b"), ("query-escape-redirect-key", "http://a.fr/?%", "rl=http://b.fr/x"),
+                           ("empty-segment-dotdot", "http://x.fr/a//", "./b")]
 
 
 def hier(st, skel, n, flag):
